@@ -136,14 +136,18 @@ int rp_run (FILE *sched, const struct rp_harness *h, struct rp_stats *st, const 
 			if (nontrivial_flag) st->nontrivial++;
 			if (rt_first_violation ()) {
 				const struct rt_viol *v = rt_first_violation ();
-				char path[512] = "-";
+				char path[512] = "-", tmsg[600];
+				line[strcspn (line, "\n")] = 0;
+				/* ghost taints of the specification's final state (known-finding windows), for KNOWN_FINDINGS matching */
+				if (strlen (line) > 2 && !diverged) snprintf (tmsg, sizeof tmsg, "%s [spec taints: %s]", v->msg, line + 2);
+				else snprintf (tmsg, sizeof tmsg, "%s", v->msg);
 				st->violations++;
 				if (viol_dir && st->violations <= 5) save_tour (&cur, viol_dir, prop, st->violations, path, sizeof path);
 				if (!st->first_violation[0]) {
-					snprintf (st->first_violation, sizeof st->first_violation, "%s|%s|thread %d|step %ld|%s|%s", v->oracle, v->fn, v->tid, v->step, path, v->msg);
+					snprintf (st->first_violation, sizeof st->first_violation, "%s|%s|thread %d|step %ld|%s|%s", v->oracle, v->fn, v->tid, v->step, path, tmsg);
 					st->first_violation_tour = tour_id;
 				}
-				printf ("VIOL %s|%s|thread %d|step %ld|%s|%s\n", v->oracle, v->fn, v->tid, v->step, path, v->msg);
+				printf ("VIOL %s|%s|thread %d|step %ld|%s|%s\n", v->oracle, v->fn, v->tid, v->step, path, tmsg);
 			}
 		}
 	}
